@@ -352,6 +352,22 @@ func (l *Lexer) advanceChars(n int) bool {
 	return true
 }
 
+// Same as [advanceChars] but keeps the line counter
+// in sync when a newline is among the consumed characters.
+func (l *Lexer) advanceCharsCountingLines(n int) bool {
+	for i := 0; i < n; i++ {
+		char, ok := l.advanceChar()
+		if !ok {
+			return false
+		}
+		if char == '\n' {
+			l.incrementLine()
+		}
+	}
+
+	return true
+}
+
 // Rewinds the cursor back to the previous char.
 func (l *Lexer) backupChar() {
 	l.cursor -= 1
@@ -1501,7 +1517,7 @@ func (l *Lexer) scanInvalidHexEscape() *token.Token {
 	l.advanceChars(2)
 	// two more characters may be present but are not
 	// guaranteed to be present, since the input may terminate at any point.
-	if !l.advanceChars(2) {
+	if !l.advanceCharsCountingLines(2) {
 		return l.lexError(unterminatedStringError)
 	}
 
@@ -1516,7 +1532,7 @@ func (l *Lexer) scanInvalidBigUnicodeEscape() *token.Token {
 	l.advanceChars(2)
 	// 8 more characters may be present but are not
 	// guaranteed to be present, since the input may terminate at any point.
-	if !l.advanceChars(8) {
+	if !l.advanceCharsCountingLines(8) {
 		return l.lexError(unterminatedStringError)
 	}
 
@@ -1531,7 +1547,7 @@ func (l *Lexer) scanInvalidUnicodeEscape() *token.Token {
 	l.advanceChars(2)
 	// 4 more characters may be present but are not
 	// guaranteed to be present, since the input may terminate at any point.
-	if !l.advanceChars(4) {
+	if !l.advanceCharsCountingLines(4) {
 		return l.lexError(unterminatedStringError)
 	}
 
